@@ -221,3 +221,15 @@ package hls
 //@   modifies ghostAll("misc"), anyFld((*segment)(nil).isSequenceHeader)
 //@   freshornil sg
 //@   ensures err == nil ==> sg != nil && sgOK(sg) && sg.current != nil && sg.sequenceNo == 1 && sg.playlist == playlist && sg.audioRate == audioRate
+
+// every fetch of a segment gets a reader of its own (its own read position): two viewers fetching the same listed
+// segment at overlapping times each receive the whole transport stream
+//@ import "bytes"
+//@ extern func bytes.NewReader(b []byte) (r *bytes.Reader)
+//@   modifies
+//@   fresh r
+//@ func (mf *memorySegmentFile) get() (r io.Reader, n int, err error)
+//@   requires mf != nil && mf.file != nil
+//@   modifies
+//@   fresh r
+//@   ensures err == nil && n == len(out(mf.file))
